@@ -163,7 +163,7 @@ theorem miser_subregions (u01 : U01 G) (hu : Unit01 u01) (f : List Rat → Rat) 
     intro region npts iran g o hw h p hp
     by_cases h0 : npts ≤ 0
     · simp only [miser] at h; rw [if_pos h0] at h; exact absurd h (by simp)
-    by_cases h60 : npts < 60
+    by_cases h60 : npts < K.mnbs
     · rw [miser_leaf u01 f pw23 region npts iran g fuel (by omega) h60] at h
       simp only [Option.some.injEq] at h
       rw [← h] at hp
@@ -223,7 +223,7 @@ theorem miser_constant_exact (u01 : U01 G) (c : Rat) (pw23 : Rat → Rat) :
     intro region npts iran g o h
     by_cases h0 : npts ≤ 0
     · simp only [miser] at h; rw [if_pos h0] at h; exact absurd h (by simp)
-    by_cases h60 : npts < 60
+    by_cases h60 : npts < K.mnbs
     · rw [miser_leaf u01 _ pw23 region npts iran g fuel (by omega) h60] at h
       simp only [Option.some.injEq] at h
       rw [← h]
@@ -250,7 +250,7 @@ theorem miser_constant_exact_full : miser_constant_exact_FULL :=
     `npts ≤ 0` (the C++ would divide by zero at such a leaf).  For a region with at least one axis and
     strictly positive widths (`fracl = 1/2`), spreads `σl, σr > 0` (what `max(TINY, pow(·, 2/3))`
     guarantees; here: `pw23` positive on positive arguments), every budget `npts ≥ 1` and enough fuel,
-    the recursion returns: the allocation gives both halves `nptl, nptr ≥ MNPT = 15` (`node_alloc`,
+    the recursion returns: the allocation gives both halves `nptl, nptr ≥ MNPT ≥ 1` (`node_alloc`, `mnpt_pos` on the regenerated `K.mnpt`;
     from `miser_accounting` and `0 ≤ t ≤ 1`) and strictly fewer points than the node. -/
 theorem miser_total (u01 : U01 G) (f : List Rat → Rat) (pw23 : Rat → Rat) (hp : ∀ x, 0 < x → 0 < pw23 x) :
     ∀ (fuel : Nat) region npts iran g, 0 < region.length / 2 → StrictWF region → 1 ≤ npts → npts < (fuel : Int) →
@@ -260,7 +260,8 @@ theorem miser_total (u01 : U01 G) (f : List Rat → Rat) (pw23 : Rat → Rat) (h
   | zero => intro region npts iran g _ _ h1 h2; simp at h2; omega
   | succ fuel ih =>
     intro region npts iran g hd hs h1 h2 hnone
-    by_cases h60 : npts < 60
+    have hK := mnpt_pos
+    by_cases h60 : npts < K.mnbs
     · rw [miser_leaf u01 f pw23 region npts iran g fuel (by omega) h60] at hnone
       exact absurd hnone (by simp)
     · have ha := node_alloc u01 f pw23 region npts iran g hs hd (by omega) (node_sig_pos u01 f pw23 region npts iran g hp hd)
@@ -283,7 +284,8 @@ theorem miser_total_const (u01 : U01 G) (c : Rat) (pw23 : Rat → Rat) :
   | zero => intro region npts iran g _ _ h1 h2; simp at h2; omega
   | succ fuel ih =>
     intro region npts iran g hd hs h1 h2 hnone
-    by_cases h60 : npts < 60
+    have hK := mnpt_pos
+    by_cases h60 : npts < K.mnbs
     · rw [miser_leaf u01 _ pw23 region npts iran g fuel (by omega) h60] at hnone
       exact absurd hnone (by simp)
     · have hsig := node_sig_const u01 pw23 region npts iran g c
@@ -436,13 +438,13 @@ structure VegasLive (ndim nd : Nat) (region : List Rat) (grid : Nat → Rat) (b 
     `dx[j]`, `kg[j]`, `d[0..nd-1][j]`, `di[0..nd-1][j]` for `j < ndim` — has been written in this call:
     its value is given by ONE grid `grid` (the same for every axis and every incoming state `a`) resp.
     by the region, and that grid satisfies the invariant `GridOK nd` kept by `Rebin`. -/
-theorem vegas_arrays_live_after_init (ndim nd : Nat) (region : List Rat) (hndim : ndim ≤ 10) (hnd1 : 1 ≤ nd) (hnd : nd ≤ 50) :
+theorem vegas_arrays_live_after_init (ndim nd : Nat) (region : List Rat) (hndim : ndim ≤ K.mxdim) (hnd1 : 1 ≤ nd) (hnd : nd ≤ K.ndmx) :
     ∃ grid, GridOK nd grid ∧ ∀ a : VegasArrays, ∃ b, vegasInitArrays a 0 ndim region 1 nd = some b ∧
       VegasLive ndim nd region grid (vegasIterPrologue b ndim nd) := by
   have hndp : ((nd : Nat) : Rat) ≠ 0 := by
     have : (0 : Rat) < nd := by exact_mod_cast hnd1
     exact ne_of_gt this
-  obtain ⟨l, e, hl, hc⟩ := rebin_loop_top (((1 : Nat) : Rat) / (nd : Rat)) nd 1 50 (fun _ => 1) (fun _ => 1) (by omega) hnd1
+  obtain ⟨l, e, hl, hc⟩ := rebin_loop_top (((1 : Nat) : Rat) / (nd : Rat)) nd 1 K.ndmx (fun _ => 1) (fun _ => 1) (by omega) hnd1
     ⟨le_refl _, one_pos, fun i hi => absurd hi (by omega), rfl⟩ (fun _ _ => one_pos)
     (by simp only [psum]; field_simp; norm_num)
   refine ⟨rebinRow nd l (fun _ => 1), rebinRow_grid nd l _ hnd1 hl hc, ?_⟩
@@ -480,7 +482,7 @@ theorem vegas_arrays_live_after_init (ndim nd : Nat) (region : List Rat) (hndim 
 
 /-- the history-independence reading: two calls that start from arbitrary array contents `a₁, a₂` agree on
     every cell the iterations read -/
-theorem vegas_arrays_history (ndim nd : Nat) (region : List Rat) (hndim : ndim ≤ 10) (hnd1 : 1 ≤ nd) (hnd : nd ≤ 50)
+theorem vegas_arrays_history (ndim nd : Nat) (region : List Rat) (hndim : ndim ≤ K.mxdim) (hnd1 : 1 ≤ nd) (hnd : nd ≤ K.ndmx)
     (a₁ a₂ : VegasArrays) :
     ∃ b₁ b₂, vegasInitArrays a₁ 0 ndim region 1 nd = some b₁ ∧ vegasInitArrays a₂ 0 ndim region 1 nd = some b₂ ∧
       ∀ j, j < ndim →
@@ -508,7 +510,7 @@ theorem vegasRc_reads_live (nd : Nat) (xi xi' : Nat → Rat) (h : ∀ i, i < nd 
 /-- the bin index of a sample: with `1 ≤ kg ≤ ng`, `dxg = nd/ng` (as set by the `init ≤ 2` block),
     `1 ≤ nd ≤ NDMX` and a uniform `0 < u < 1`, `xn = (kg − u)·dxg + 1` lies in `(1, nd + 1)`, so
     `ia = max(min(int(xn), NDMX), 1) = int(xn)` is a bin of the current grid and `0 ≤ xn − ia < 1` -/
-theorem vegas_ia_range (kg ng : Int) (nd : Nat) (u : Rat) (h1 : 1 ≤ kg) (h2 : kg ≤ ng) (hnd1 : 1 ≤ nd) (hnd : nd ≤ 50)
+theorem vegas_ia_range (kg ng : Int) (nd : Nat) (u : Rat) (h1 : 1 ≤ kg) (h2 : kg ≤ ng) (hnd1 : 1 ≤ nd) (hnd : nd ≤ K.ndmx)
     (hu0 : 0 < u) (hu1 : u < 1) :
     1 ≤ vegasIa (vegasXn kg u ((nd : Rat) / (ng : Rat))) ∧ vegasIa (vegasXn kg u ((nd : Rat) / (ng : Rat))) ≤ nd ∧
     0 ≤ vegasXn kg u ((nd : Rat) / (ng : Rat)) - (vegasIa (vegasXn kg u ((nd : Rat) / (ng : Rat))) : Rat) ∧
@@ -622,11 +624,11 @@ theorem vegas_ia_range_unconditional (xn : Rat) (nd : Nat) (hnd : 1 ≤ nd) : 1 
 theorem vegas_ia_clamped_witness : vegasIaNd (vegasXn 25 0 ((25 : Nat) / (25 : Int))) 25 = 25 := by decide +kernel
 
 /-- below the clamp the two formulas agree: the fix changes nothing unless `int(xn) > nd` -/
-theorem vegasIaNd_eq_vegasIa (xn : Rat) (nd : Nat) (hnd : nd ≤ 50) (h : truncInt xn ≤ nd) : vegasIaNd xn nd = vegasIa xn := by
+theorem vegasIaNd_eq_vegasIa (xn : Rat) (nd : Nat) (hnd : nd ≤ K.ndmx) (h : truncInt xn ≤ nd) : vegasIaNd xn nd = vegasIa xn := by
   unfold vegasIaNd vegasIa
   have : min (truncInt xn) (nd : Int) = truncInt xn := min_eq_left h
-  have h50 : min (truncInt xn) 50 = truncInt xn := min_eq_left (by have : (nd : Int) ≤ 50 := by exact_mod_cast hnd
-                                                                   omega)
+  have hnd' : (nd : Int) ≤ (K.ndmx : Int) := by exact_mod_cast hnd
+  have h50 : min (truncInt xn) (K.ndmx : Int) = truncInt xn := min_eq_left (le_trans h hnd')
   rw [this, h50]
 
 /-- fix 9f1900c: the integrand's argument has exactly `ndim` entries (the work vector has `MXDIM = 10 ≥ ndim`) and they are
